@@ -334,6 +334,36 @@ def far_and_dense(ctx):
     return first
 
 
+def meshed_copies(ctx):
+    """copies of a MESHED device: moving the copy in place (directly, or inside its `translation` context) leaves the original's
+    mesh where the original's shapes are"""
+    import copy as _copy
+
+    first = None
+    orig = zoo.make_device("bar_hole", ctx.rng, max_edge_length=1.0)
+    for how in ("copy()", "copy(with_mesh=True)"):  # (the library's own copies; a shallow copy.copy shares the polygons by definition)
+        cp = orig.copy() if how == "copy()" else orig.copy(with_mesh=True)
+        before = dict(points=np.array(orig.points, copy=True), centers=np.array(orig.mesh.edge_mesh.centers, copy=True), film=np.array(orig.film.points, copy=True))
+        probs = []
+        for via in ("translate(inplace=True)", "translation context"):
+            if via.startswith("translate"):
+                cp.translate(dx=2.5, dy=-1.25, inplace=True)
+                now = dict(points=np.array(orig.points), centers=np.array(orig.mesh.edge_mesh.centers), film=np.array(orig.film.points))
+            else:
+                with cp.translation(-1.5, 0.75):
+                    now = dict(points=np.array(orig.points), centers=np.array(orig.mesh.edge_mesh.centers), film=np.array(orig.film.points))
+            moved = [k_ for k_ in before if not np.array_equal(before[k_], now[k_])]
+            ctx.case(("meshed-copy", how, via), nontrivial=True)
+            ctx.count("meshed_copy_moves")
+            if moved:
+                probs.append(f"{via} on the copy changed the ORIGINAL's {moved} (by up to {max(float(np.abs(before[k_] - now[k_]).max()) for k_ in moved):.3g})")
+        if probs:
+            rp = dict(copied_with=how, problems=probs)
+            ctx.fail("aliasing:meshed-copy", f"{how} of a meshed device: {probs[0]}", rp)
+            first = first or dict(key="aliasing:meshed-copy", what=probs[0], **rp)
+    return first
+
+
 def string_origins(ctx):
     """rotate / scale about the documented named origins: "center" = centre of the bounding box, "centroid" = centre of mass of
     the shape (NOT the mean of its vertices: outlines are sampled unevenly) -- points map with the shape"""
@@ -373,6 +403,7 @@ def run(ctx):
     device_membership(ctx, ctx.rng)
     far_and_dense(ctx)
     string_origins(ctx)
+    meshed_copies(ctx)
     if len(ctx.samples) < 2:
         ctx.samples.append(dict(operations=sorted(k for k in ctx.dist if k.startswith("op:") or k.startswith("transform:"))))
 
@@ -383,7 +414,7 @@ def search(ctx):
         f = eval_pair(ctx, rng, with_model=False)
         if f:
             return f
-    return device_membership(ctx, rng) or far_and_dense(ctx) or string_origins(ctx)
+    return device_membership(ctx, rng) or far_and_dense(ctx) or string_origins(ctx) or meshed_copies(ctx)
 
 
 def replay(payload):
